@@ -266,10 +266,23 @@ func (vc *VC) loopContract(act *Act, h *ssa.BasicBlock, ordinal int) *LoopContra
 		return nil
 	}
 	text := vc.eng.loopHeaderText(act.fn, ordinal)
-	for _, lc := range act.fc.Loops {
-		if lc.Key == fmt.Sprint(ordinal) || (text != "" && normSpace(lc.Key) == normSpace(text)) {
-			lc.Used = true
-			return lc
+	find := func(fc *FuncContract) *LoopContract {
+		for _, lc := range fc.Loops {
+			if lc.Key == fmt.Sprint(ordinal) || (text != "" && normSpace(lc.Key) == normSpace(text)) {
+				lc.Used = true
+				return lc
+			}
+		}
+		return nil
+	}
+	if lc := find(act.fc); lc != nil {
+		return lc
+	}
+	// a contract case (funcalt) shared by many functions carries no loop clauses: the loops of a function are
+	// annotated once, in its primary contract
+	if act.fc.CaseName != "" {
+		if prim := vc.eng.contractFor(act.fn); prim != nil && prim != act.fc {
+			return find(prim)
 		}
 	}
 	return nil
